@@ -8,7 +8,7 @@ PROPS = [json.loads(l)["id"] for l in open("/verif/properties.jsonl")]
 CLAIMED = {
     "C18": dict(
         category="model_checking",
-        text="TLC explores the buffer machine MC_C18 exhaustively over block sizes, message lengths 0..3bs+1, padding-like tails and all small-alphabet strings, checks inversion / whole-blocks / accept-set on the TLA+ definitions of the four schemes, and every explored transition is replayed against padding.New*Padding with the reply the definition gives. Exhaustive over the finite shape space named in the property (thorough tier); contents sampled.",
+        text="TLC explores the buffer machine MC_C18 exhaustively over block sizes, message lengths 0..3bs+1, padding-like tails and all small-alphabet strings, checks inversion / whole-blocks / accept-set on the TLA+ definitions of the four schemes, plus length-block candidates for method 3 (boundary bit lengths up to the 64-bit wrap-around), and every explored transition is replayed against padding.New*Padding with the reply the definition gives. Exhaustive over the finite shape space named in the property (thorough tier); contents sampled.",
         design_ref="DESIGN.md section 4, C18",
         note="Trusted: TLC, the TLA+ transcription of the four padding definitions (method 3 in the form documented in padding/iso9797_m3.go), Go replayer plumbing (binding guard each run). Method 3 with block sizes 1..3 is checked only for messages whose bit length fits the length block.",
         technique="TLA+ executable specification + TLC exhaustive exploration + spec-to-code trace replay"),
@@ -22,9 +22,9 @@ CLAIMED["C19"] = dict(
     technique="TLA+ executable specification + TLC history exploration + spec-to-code trace replay")
 CLAIMED["C01"] = dict(
     category="model_checking",
-    text="TLC explores all bounded Write/Sum/Reset/Marshal/Unmarshal histories on two SM3 objects with chunk lengths at every 64-byte seam, one-shot lengths, and (len z, keyLen, entry point) KDF requests covering every len(z) mod 64 and every lane-count class; replies come from a bit-exact TLA+ SM3 (GB/T 32905 KATs asserted). Every transition is replayed on four SM3 tiers (AVX2, AVX, scalar asm, purego) and recorded random histories of the real objects are validated by TLC against the same HashObj actions.",
+    text="TLC explores all bounded Write/Sum/Reset/Marshal/Unmarshal histories on two SM3 objects with chunk lengths at every 64-byte seam (Sum residue kept in the VIEW, so that Sum;X and X are both continued), one-shot lengths, suffixes of streams of 2^29..2^60 bytes entered through the byte count of an exported state (MC_C01big), and (len z, keyLen, entry point) KDF requests covering every len(z) mod 64, every lane-count class and the three branches of kdf.Kdf (native, state-marshalling, plain loop); replies come from a bit-exact TLA+ SM3 (GB/T 32905 KATs asserted). Every transition is replayed on four SM3 tiers (AVX2, AVX, scalar asm, purego) and recorded random histories of the real objects are validated by TLC against the same HashObj actions.",
     design_ref="DESIGN.md section 4, C01",
-    note="Trusted: TLC, the TLA+ SM3 (pinned by the standard's examples), replayer/recorder plumbing (binding guards in both directions each run). Bounded: messages <= ~1 KiB.",
+    note="Trusted: TLC, the TLA+ SM3 (pinned by the standard's examples), replayer/recorder plumbing (binding guards in both directions each run). Bounded: messages <= ~1 KiB of hashed data; longer streams only as (chaining value, tail, byte count) states.",
     technique="TLA+ executable specification + TLC history exploration + two-way trace conformance (replay and trace validation)")
 
 CLAIMED["C02"] = dict(
@@ -63,21 +63,21 @@ CLAIMED["C11"] = dict(
 
 CLAIMED["C09"] = dict(
     category="model_checking",
-    text="Registers over G1, G2, GT carry their discrete logarithm in Z_N; TLC explores programs of base/scalar multiplication, addition, negation, doubling and pairing over scalar classes (0, 1, 2, n-1, n, n+1, 2^256-1, window one-hots, random) and predicts from the group laws and bilinearity which results must be equal, that every result equals generator^dlog, identity/inverse cases and - for G1 and G2 - the exact affine coordinates computed by big-integer arithmetic over F_p and F_p^2 (Bn.tla, GM/T 0044.5 parameters and Ppub-s asserted). GT is anchored by the standard's g = e(P1,[ks]P2). Decoders: accept/reject and re-encoding predicted for canonical, coordinate+p, off-curve, infinity and malformed inputs. Everything is replayed through the internal bn256 API (verifhook) under ADX+BMI2, no-ADX, no-BMI2 and purego.",
+    text="Registers over G1, G2, GT carry their discrete logarithm in Z_N; TLC explores programs of base/scalar multiplication, addition, negation, doubling and pairing over scalar classes (0, 1, 2, n-1, n, n+1, 2^256-1, window one-hots, random) and predicts from the group laws and bilinearity which results must be equal, that every result equals generator^dlog, identity/inverse cases and - for G1 and G2 - the exact affine coordinates computed by big-integer arithmetic over F_p and F_p^2 (Bn.tla, GM/T 0044.5 parameters and Ppub-s asserted). GT is exact as well: the F_p^12 tower and the R-ate pairing of GM/T 0044.1 are transcribed in TLA+ (algo/Fp12, algo/Pairing; pinned by the GM/T 0044.5 annex values in selftest/KAT_Pairing), MC_C09gt explores register programs of pairings, products and powers whose 384-byte encodings are compared byte for byte through every route the library offers, and TLC checks bilinearity on the transcription itself. Decoders: accept/reject and re-encoding predicted for canonical, coordinate+p, off-curve, infinity and malformed inputs. Everything is replayed through the internal bn256 API (verifhook) under ADX+BMI2, no-ADX, no-BMI2 and purego.",
     design_ref="DESIGN.md section 4, C09",
-    note="Trusted: TLC, BigNat overrides, Bn.tla, replayer plumbing. GT element values are relational + one standard constant (no F_p^12 tower in TLA+); G2 compressed decoding and subgroup checks are not modelled.",
-    technique="TLA+ executable specification (dlog algebra + exact G1/G2 arithmetic) + TLC exploration + spec-to-code trace replay")
+    note="Trusted: TLC, BigNat overrides, Bn.tla, replayer plumbing. Algo/Pairing.tla (two transcriptions, the literal definition and a twist-coordinate form, compared in the KAT); G2 compressed decoding and subgroup checks are not modelled.",
+    technique="TLA+ executable specification (dlog algebra + exact G1/G2/GT arithmetic incl. the R-ate pairing) + TLC exploration + spec-to-code trace replay")
 
 CLAIMED["C12"] = dict(
     category="model_checking",
-    text="obj/RandSource.tla states the drawing rule (optional one discarded byte, then 32-byte big-endian blocks until one lies in the operation's range, key generators XOR byte 1 with 0x42; no masking, reduction or reuse). TLC runs SM2 sign/encrypt/keygen/key-exchange, ecdh keygen, SM9 master keygen (sign/encrypt), wrap, key-exchange and sign against scripted streams whose leading blocks are 0, 1, top, top+1, n, n+1, 2^256-1 in several orders at both alignments, computes for each admissible alignment the scalar, the bytes consumed and the exact output that follows from that scalar by the algorithm's definition (SM2.tla, Bn.tla), checks ScalarIsBlock as an invariant, and adds a fault (error/EOF) at every byte position. Each trace is replayed 8 times against the real API with a scripted reader; every reply must be in the allowed set and a failing source must give an error and no output.",
+    text="obj/RandSource.tla states the drawing rule (optional one discarded byte, then 32-byte big-endian blocks until one lies in the operation's range, key generators XOR byte 1 with 0x42; no masking, reduction or reuse). TLC runs SM2 sign/encrypt/keygen/key-exchange, ecdh keygen, SM9 master keygen (sign/encrypt), wrap, key-exchange and sign against scripted streams whose leading blocks are 0, 1, top, top+1, n, n+1, 2^256-1 in several orders at both alignments and the 81 limb-structured comparison classes (each 64-bit limb below / equal / above the bound's), computes for each admissible alignment the scalar, the bytes consumed and the exact output that follows from that scalar by the algorithm's definition (SM2.tla, Bn.tla), checks ScalarIsBlock as an invariant, and adds a fault (error/EOF) at every byte position. Each trace is replayed 8 times against the real API with a scripted reader; every reply must be in the allowed set and a failing source must give an error and no output.",
     design_ref="DESIGN.md section 4, C12",
     note="Trusted: TLC, BigNat overrides, SM2/EC/Bn/SM3 TLA+ definitions (KAT-pinned), replayer plumbing incl. the scripted reader. SM9 Sign output is pinned only through the draw (exact S is C10). Uniformity follows from equality with the sampled block; it is not tested statistically.",
     technique="TLA+ executable specification + TLC exploration of stream classes and fault positions + spec-to-code trace replay with scripted random sources")
 
 CLAIMED["C06"] = dict(
     category="model_checking",
-    text="GB/T 32918.2 signing and verification (with range checks) and strict DER are executable TLA+ operators pinned by the GB/T 32918.5 Annex A vectors. TLC explores a key-object state machine: construction routes, 9 sign entry points, uid/message lengths up to 8191 / 1 KiB, digests crafted to hit every retry condition and extreme (r,s) shapes, histories of up to 3 Sign calls on one key object (incl. d = n-1 and above), every byte flip, ~100 structural/integer/context mutations and random forgeries; Complete, OnlyHonestAccepted (Sound on a refinement instance) and BadKeyAlwaysErr are checked on the model. Every transition is replayed through 6 verification and 9 signing entry points in 4 EC dispatch configurations with byte-exact expectations (scripted nonce source), and recorded histories are validated against the specification.",
+    text="GB/T 32918.2 signing and verification (with range checks) and strict DER are executable TLA+ operators pinned by the GB/T 32918.5 Annex A vectors. TLC explores a key-object state machine: construction routes, 9 sign entry points, uid/message lengths up to 8191 / 1 KiB, digests crafted to hit every retry condition and extreme (r,s) shapes, histories of up to 3 Sign calls on one key object (incl. d = n-1 and above), every byte flip, ~100 structural/integer/context mutations, random forgeries and adversarially constructed candidates (every test of 32918.2 7.1 passes but one; valid signatures whose point has its abscissa in [n, p-1]); Complete, OnlyHonestAccepted (Sound on a refinement instance) and BadKeyAlwaysErr are checked on the model. Every transition is replayed through 6 verification and 9 signing entry points in 4 EC dispatch configurations with byte-exact expectations (scripted nonce source), and recorded histories are validated against the specification.",
     design_ref="DESIGN.md section 4, C06",
     note="Trusted: TLC, BigNat overrides, SM2/EC/Der TLA+ (KAT-pinned), replayer/recorder plumbing. Digests are 32 bytes, public keys valid; bit flips and random forgeries test agreement, not unforgeability.",
     technique="TLA+ executable specification + TLC exploration of key-object histories and signature mutations + two-way trace conformance")
@@ -89,20 +89,20 @@ CLAIMED["C07"] = dict(
     technique="TLA+ executable specification + TLC exploration of ciphertext constructions and corruptions + two-way trace conformance")
 CLAIMED["C20"] = dict(
     category="model_checking",
-    text="TLC verifies InitOnce, UseAfterPublish, Linearizable, mutual exclusion and deadlock-freedom over every interleaving of N<=4 goroutines x K<=3 calls on objects with one to three (nested) sync.Once-guarded caches (LazyInit.tla) and derives the attack schedules from the unguarded variants (which must fail). A -race schedule replayer forces those schedules through gate hooks and records perturbed free schedules on 13 kinds of fresh shared real objects (package singletons once per fresh child process); every result is compared with the sequential call, every recorded gate-event trace is validated by TLC against the same Guarded actions (Trace_LazyInit), and the Go race detector monitors all runs. A harness-internal unguarded toy object must be caught on every run.",
+    text="TLC verifies InitOnce, UseAfterPublish, Linearizable, mutual exclusion and deadlock-freedom over every interleaving of N<=4 goroutines x K<=3 calls on objects with one to three (nested) sync.Once-guarded caches (LazyInit.tla) and derives the attack schedules from the unguarded variants (which must fail). A -race schedule replayer forces those schedules through gate hooks and records perturbed free schedules on 13 kinds of fresh shared real objects (package singletons once per fresh child process; certificate pools with a rolled-over intermediate under one subject name; shared-key messages long enough for every lane count of the batched KDF); every result is compared with the sequential call, every recorded gate-event trace is validated by TLC against the same Guarded actions (Trace_LazyInit), and the Go race detector monitors all runs. A harness-internal unguarded toy object must be caught on every run.",
     design_ref="DESIGN.md section 4, C20",
     note="Trusted: TLC, the gate hooks (build tag verif), the Go race detector as monitor, harness plumbing. Real interleavings are sampled and steered only at the gate points; three sync.Once sites have no hook (system roots, randutil, purego sm2p256B) and are covered by results and the race detector only.",
     technique="TLA+ model of lazy initialisation checked by TLC + schedule replay through gate hooks + recorded-trace validation + race detector")
 
 CLAIMED["C08"] = dict(
     category="model_checking",
-    text="obj/Sm2Kx is an explicit two-party protocol machine (network plus active adversary) on which TLC checks Agreement, BadPointRejected, BadConfirmRejected, FailClosed and CrossImpl with exact GB/T 32918.3 values (Annex B example asserted through the machine). Every explored run - honest runs, every single adversary alteration at every protocol point, and the special cases t = 0, V = O and doubling in the peer sum - is replayed through sm2.KeyExchange with scripted randomness and through ecdh ECDH/SM2MQV/SM2SharedKey/SM2ZA in 5 dispatch configurations; recorded real runs are validated event by event by Trace_Sm2Kx.",
+    text="obj/Sm2Kx is an explicit two-party protocol machine (network plus active adversary) on which TLC checks Agreement, BadPointRejected, BadConfirmRejected, FailClosed and CrossImpl with exact GB/T 32918.3 values (Annex B example asserted through the machine). Every explored run - honest runs, every single adversary alteration at every protocol point (peer points: infinity, off-curve, x = p, x + p as a 257-bit value, x + p and y + p that still fit 32 bytes, another valid point, damaged encodings), and the special cases t = 0, V = O and doubling in the peer sum - is replayed through sm2.KeyExchange with scripted randomness and through ecdh ECDH/SM2MQV/SM2SharedKey/SM2ZA in 5 dispatch configurations; recorded real runs are validated event by event by Trace_Sm2Kx.",
     design_ref="DESIGN.md section 4, C08",
     note="Trusted: TLC, BigNat overrides, SM2/EC/SM3 TLA+ (KAT-pinned), replayer/recorder plumbing. Scalars and parameters are combined as a strength-2 orthogonal array; at most one adversary alteration per run (two on 7 scenarios in thorough); ecdh cannot represent r = n-1.",
     technique="TLA+ protocol state machine with adversary checked by TLC + two-way trace conformance against both implementations")
 CLAIMED["C13"] = dict(
     category="exploration",
-    text="TLC enumerates every single mutation (truncate, substitute, append, set-length, set-tag, delete, duplicate, nest up to 64 deep, clear, indefinite-form, resize; pairs for small artefacts in thorough) of 123 library-made artefacts of 46 types plus every byte string of length <= 4 (quick) / 5 (thorough) over 14 BER-significant octets; each input is fed under recover(), guard-paged and with a 10 s watchdog, to the type's entry points and to 31 universal parsers (103 rows) in three configurations; the only allowed outcomes are value or error. A TLA+ transcription of the pkcs7/ber.go index arithmetic is checked against the X.690 grammar and its out-of-slice predictions are compared with the real code.",
+    text="TLC enumerates every single mutation (truncate, substitute, append, set-length, set-tag, delete, duplicate, nest up to 64 deep, clear, indefinite-form, resize, INTEGER boundary values, OBJECT IDENTIFIER last-arc sweep and transplants from the public hash/signature registries; pairs for small artefacts in thorough) of 123 library-made artefacts of 46 types plus every byte string of length <= 4 (quick) / 5 (thorough) over 14 BER-significant octets; each input is fed under recover(), guard-paged and with a 10 s watchdog, to the type's entry points and to 31 universal parsers (103 rows) in three configurations; the only allowed outcomes are value or error. A TLA+ transcription of the pkcs7/ber.go index arithmetic is checked against the X.690 grammar and its out-of-slice predictions are compared with the real code.",
     design_ref="DESIGN.md section 4, C13",
     note="Structured exhaustive mutation driven by a TLA+ mutation model, not coverage-guided fuzzing (no fuzzing engine in this technique family); inputs more than one (small artefacts: two) mutation away from a valid artefact are not reached; memory safety is seen only through Go bounds checks and a guard page behind the input.",
     technique="TLA+ mutation model and BER grammar/transcription checked by TLC + replay of every enumerated input against ~100 entry points")
@@ -136,7 +136,7 @@ CLAIMED["C10"] = dict(
     category="model_checking",
     text="The SM9 schemes are specified in TLA+ from GM/T 0044.2/.3/.4 (SM9.tla: H1/H2, user-key scalars, exact G1/G2 points and encodings, KDF/MAC, XOR and SM4-ECB/CBC/CFB/OFB payloads, signatures, encapsulation, key exchange) and pinned by the GM/T 0044.5 annex examples. A system machine over the dlog group model (Sm9Sys) is model-checked for Complete, Sound, RoundTrip, KxAgreement and DlogRefinesG1 and its transitions (sign/verify, wrap/unwrap, encrypt/decrypt in 5 modes x 2 encodings, key exchange, 6 key kinds x all forms, wrong id/hid/message, every byte tamper of small artefacts) are replayed against the real API on 7 dispatch configurations. Every output byte of recorded real executions with scripted nonces is recomputed by TLC from logged public intermediates (Trace_Sm9), and the recorded transcripts under 11 dispatch configurations must be byte-identical (portability).",
     design_ref="DESIGN.md section 4, C10",
-    note="Trusted: TLC, BigNat overrides, SM9/Bn/SM3/SM4/Modes/Kdf/Der TLA+ (annex-pinned), replayer/recorder plumbing. GT values are logged, not computed: decided by route equality (ScalarBaseMultGT vs Pair), the annex anchors and C09. H2/KDF/MAC on GT arguments are idealised in the model direction. Observations (not verdicts): K1-all-zero rule tested on K1||K2, MarshalCompressedASN1 writes uncompressed points.",
+    note="Trusted: TLC, BigNat overrides, SM9/Bn/SM3/SM4/Modes/Kdf/Der TLA+ (annex-pinned), replayer/recorder plumbing. In the replayed direction the signature (h, S), the encapsulated key K and the whole ciphertext are dictated byte for byte for the scripted nonce (GT values from algo/Pairing.tla); in the recorded direction GT values are logged and decided by route equality (ScalarBaseMultGT vs Pair), the annex anchors and C09. The state of the system machine stays the dlog algebra (H2/KDF/MAC on GT arguments idealised there). Observations (not verdicts): K1-all-zero rule tested on K1||K2, MarshalCompressedASN1 writes uncompressed points.",
     technique="TLA+ executable specification + dlog system machine checked by TLC + two-way trace conformance with logged intermediates + cross-configuration transcript equality")
 
 NOT_BUILT = "not built yet (in progress; see DESIGN.md section 9 build order)"
